@@ -36,7 +36,7 @@ func DecodeTfdt(hdr BoxHeader, startPos uint64, r io.Reader) (Box, error) {
 		Flags:               versionAndFlags & flagsMask,
 		baseMediaDecodeTime: baseMediaDecodeTime,
 	}
-	return b, nil
+	return b, s.AccError()
 }
 
 // DecodeTfdtSR - box-specific decode
@@ -93,7 +93,10 @@ func (t *TfdtBox) Type() string {
 
 // Size - return calculated size
 func (t *TfdtBox) Size() uint64 {
-	return uint64(boxHeaderSize + 8 + 4*int(t.Version))
+	if t.Version == 0 {
+		return uint64(boxHeaderSize + 8)
+	}
+	return uint64(boxHeaderSize + 12) // All versions but 0 have a 64-bit time, as in the decoder and encoder
 }
 
 // Encode - write box to w
